@@ -277,16 +277,37 @@ def label_pairs(rng, quick):
     return res
 
 
+def _passes(a, no_secondary, min_mapq):
+    """the records process_genic / process_intergenic assign (their first two `continue`s)"""
+    f = a[2]
+    return not (f & 4) and not (f & 2) and not (no_secondary and (f & 1)) and not (min_mapq and a[3] < min_mapq)
+
+
 def chromosome_case(rng, quick, small=False):
     """one chromosome for the region-splitting level (C13 chromosome model): a read cluster long enough to be cut by
     split_coverage_regions (> 32768 bp with coverage valleys), genes scattered over it (some nested in valleys, some beyond
     the last alignment of a sub-region), reads bridging the cuts (some of them several cuts), plus small clusters that are not
-    cut.  Alignments are [start0, stop (exclusive), flags, mapq, rid]; genes [gid, start, end]; the per-alignment answers of
-    the assigner / profile constructors are TABLES over the whole annotation: hits[rid] = [(isoform id, gene id)], marks[rid] =
-    [(gene id, start, end, +1 | -1)] - an isoform / a feature is visible to a record iff its gene is loaded.
-    A feature belongs to one gene here (label merging is the subject of the row theorems); an alignment marks only features of
-    genes it overlaps (what the real profile constructors do: `marks_local` oracle in C13.py)."""
+    cut.  Alignments are [start0, stop (exclusive), flags, mapq, rid]; genes [gid, start, end] (1-based, closed); the
+    per-alignment answers of the assigner / profile constructors are TABLES over the whole annotation: hits[rid] = [(isoform id,
+    gene id)], marks[rid] = [(gene id, start, end, +1 | -1)] - an isoform / a feature is visible to a record iff its gene is
+    loaded.  A feature belongs to one gene here (label merging is the subject of the row theorems); an alignment marks only
+    features of genes it overlaps: its 1-based interval [start0 + 1, stop] against the 1-based gene record.
+    Widened (p13local follow-up): (1) genes whose FIRST base is the LAST aligned base of an alignment (`last_base`: [gid, rid];
+    the alignment overlaps them and marks their features) and genes whose last base is the base BEFORE an alignment (not
+    overlapped: never named) or its FIRST base (overlapped); (2) records that are never assigned - supplementary, MAPQ below `min_mapq`, secondary under
+    `no_secondary` - as the bridging record of a valley or reaching 60-400 kb beyond the cluster, with genes under their tails;
+    they get no answers."""
     alns, genes, hits, marks = [], [], {}, {}
+    no_secondary = rng.random() < 0.4
+    min_mapq = rng.choice([0, 10])
+
+    def unassigned_flags():
+        kinds = [(2, 60)]
+        if no_secondary:
+            kinds.append((1, 60))
+        if min_mapq:
+            kinds.append((0, rng.randint(0, min_mapq - 1)))
+        return rng.choice(kinds)
     rid = 0
     pos = rng.randint(0, 5000)
     n_cl = 1 if small else rng.randint(1, 3)
@@ -317,7 +338,7 @@ def chromosome_case(rng, quick, small=False):
                 s = rng.randint(bs, be - 200)
                 alns.append([s, min(be, s + rng.randint(100, 2500)), 0, 60, rid])
                 rid += 1
-        # bridging reads: one per valley; sometimes ONE read over several valleys instead
+        # bridging records: one per valley; sometimes ONE over several valleys instead; sometimes a record that is never assigned
         v = 0
         while v < nblocks - 1:
             k = 1
@@ -325,11 +346,22 @@ def chromosome_case(rng, quick, small=False):
                 k = 2
             s = rng.randint(block_spans[v][0], block_spans[v][1] - 100)
             e = rng.randint(block_spans[v + k][0] + 50, block_spans[v + k][1])
-            alns.append([s, e, 0, 60, rid])
+            fl, mq = unassigned_flags() if rng.random() < 0.35 else (0, 60)
+            alns.append([s, e, fl, mq, rid])
             rid += 1
             v += k
-        pos = block_spans[-1][1] + rng.randint(300, 3000)
-        # genes: inside blocks, nested in valleys, spanning several blocks
+        tail_end = block_spans[-1][1]
+        tail = None
+        if rng.random() < 0.5:
+            # a never-assigned record reaching far beyond the cluster (a supplementary alignment with a huge gap)
+            s = rng.randint(block_spans[-1][0], block_spans[-1][1] - 100)
+            tail_end = block_spans[-1][1] + rng.randint(60000, 400000)
+            fl, mq = unassigned_flags()
+            alns.append([s, tail_end, fl, mq, rid])
+            rid += 1
+            tail = (block_spans[-1][1] + 2000, tail_end)
+        pos = tail_end + rng.randint(300, 3000)
+        # genes: inside blocks, nested in valleys, spanning several blocks, under the tail of the far-reaching record
         for (bs, be) in block_spans:
             for _ in range(rng.randint(0, 2)):
                 s = rng.randint(bs - 500, be)
@@ -340,10 +372,27 @@ def chromosome_case(rng, quick, small=False):
                 s = rng.randint(block_spans[b][1] + 1000, block_spans[b + 1][0] - 3000)
                 genes.append([gid, s, s + rng.randint(200, 2000)])
                 gid += 1
+        if tail:
+            for _ in range(rng.randint(1, 3)):
+                s = rng.randint(tail[0], tail[1])
+                genes.append([gid, s, s + rng.randint(200, 2000)])
+                gid += 1
         if rng.random() < 0.5:
             genes.append([gid, block_spans[0][0] + 100, block_spans[-1][1] - 100])
             gid += 1
     alns.sort(key=lambda a: (a[0], a[4]))
+    # (1) genes at the two ends of an assigned alignment: first base = its last base (overlapped), last base = the base before it
+    last_base = []
+    assigned = [a for a in alns if _passes(a, no_secondary, min_mapq)]
+    for a in rng.sample(assigned, min(len(assigned), rng.randint(1, 3))):
+        genes.append([gid, a[1], a[1] + rng.randint(200, 1500)])
+        last_base.append([gid, a[4]])
+        gid += 1
+    for a in rng.sample(assigned, min(len(assigned), rng.randint(0, 2))):
+        if a[0] > 300:
+            # last base = the base before the alignment (a[0], not overlapped) or = its first base (a[0] + 1, overlapped)
+            genes.append([gid, a[0] - rng.randint(100, 250), a[0] + rng.randint(0, 1)])
+            gid += 1
     # annotated features: a few per gene, coordinates unique on the chromosome
     used, feats = set(), {}
     for g in genes:
@@ -355,10 +404,13 @@ def chromosome_case(rng, quick, small=False):
                 used.add(f)
                 fl.append(f)
         feats[g[0]] = fl
-    # answers: an alignment matches isoforms / marks features of genes it overlaps
+    # answers: an assigned alignment matches isoforms / marks features of genes it overlaps
     iso = 0
     for a in alns:
-        ov = [g for g in genes if g[1] <= a[1] - 1 and g[2] >= a[0]]
+        if not _passes(a, no_secondary, min_mapq):
+            hits[a[4]], marks[a[4]] = [], []
+            continue
+        ov = [g for g in genes if g[1] <= a[1] and g[2] >= a[0] + 1]
         h, m = [], []
         for g in ov:
             if rng.random() < 0.5:
@@ -369,4 +421,105 @@ def chromosome_case(rng, quick, small=False):
                     m.append([g[0], f[0], f[1], rng.choice([1, -1])])
         hits[a[4]] = h
         marks[a[4]] = m
-    return {"alns": alns, "genes": genes, "hits": [[r, hits[r]] for r in sorted(hits)], "marks": [[r, marks[r]] for r in sorted(marks)]}
+    return {"alns": alns, "genes": genes, "hits": [[r, hits[r]] for r in sorted(hits)], "marks": [[r, marks[r]] for r in sorted(marks)],
+            "no_secondary": no_secondary, "min_mapq": min_mapq, "last_base": last_base}
+
+
+def _gene_exons(rng, s, e, gap):
+    """exon blocks inside the gene record [s, e]; consecutive coordinates at least `gap` apart"""
+    L = e - s + 1
+    if L < 4 * gap:
+        return [(s, e)]
+    for _ in range(20):
+        n = rng.randint(1, max(1, min(5, L // (3 * gap))))
+        pts = sorted(rng.sample(range(s, e + 1), 2 * n))
+        if all(b - a >= gap for a, b in zip(pts, pts[1:])):
+            ex = [(pts[2 * i], pts[2 * i + 1]) for i in range(n)]
+            if rng.random() < 0.6:
+                ex[0] = (s, ex[0][1])
+                ex[-1] = (ex[-1][0], e)
+            return ex
+    return [(s, e)]
+
+
+def chromosome_profile_case(rng, quick, small=False, micro=False):
+    """a chromosome of `chromosome_case` (clusters cut into sub-regions, bridging reads, genes in valleys) with a REAL
+    annotation and REAL read blocks (closure p13local): per gene 1-3 isoforms (exon skipping, alternative sites within and
+    beyond delta), exons inside the gene record; per alignment [start0, stop) blocks inside [start0 + 1, stop] derived from an
+    isoform of an overlapped gene (clipped, splice sites jittered around delta) or free.  Without `micro`: annotated exons /
+    introns and read blocks / introns are >= 30 - 2*delta long (the hypotheses `ExonHyp` / `IntronHyp`).  The genes
+    `chromosome_case` plants at the LAST aligned base of a read get a first exon of delta + 1 bases there and the read a last
+    block of delta + 1 bases ending there (the two are equal within delta: the read includes the exon); never-assigned
+    records (supplementary / low MAPQ / secondary) get blocks too but no record.  hits = the assigner table as in
+    `chromosome_case`."""
+    base = chromosome_case(rng, quick, small)
+    d = rng.choice([0, 2, 4, 6])
+    abs_d = rng.choice([10, 20])
+    gap = 3 if micro else 30
+    alns = base["alns"]
+    genes = [list(g) for g in base["genes"]]
+    planted = {g: r for g, r in base["last_base"]}     # gene whose first base is the last aligned base of read r
+    isoforms = {}
+    for gid, s, e in genes:
+        ex = _gene_exons(rng, s, e, gap)
+        if gid in planted and e - s > d + 120:
+            # first exon = d + 1 bases starting at the read's last base: the read's last block (below) equals it within delta
+            ex = [(s, s + d), (s + d + 60, e)]
+        strand = rng.choice(["+", "-"])
+        isos = [{"tid": "T%d.0" % gid, "strand": strand, "gene": "G%06d" % gid, "feats": [list(x) for x in ex]}]
+        for t in range(1, rng.randint(1, 3)):
+            e2 = list(ex)
+            r = rng.random()
+            if r < 0.4 and len(e2) > 2:
+                del e2[rng.randint(1, len(e2) - 2)]
+            elif r < 0.8:
+                i = rng.randrange(len(e2))
+                sh = rng.choice([1, 2, d, d + 1, 7]) if d else rng.choice([1, 2, 7])
+                a, b = e2[i]
+                if rng.random() < 0.5 and i > 0:
+                    a += sh
+                elif i < len(e2) - 1:
+                    b -= sh
+                if b - a >= (gap - 2 * 6 if not micro else 0):
+                    e2[i] = (a, b)
+            isos.append({"tid": "T%d.%d" % (gid, t), "strand": strand, "gene": "G%06d" % gid, "feats": [list(x) for x in e2]})
+        isoforms[gid] = isos
+    reads = {}
+    last_block_reads = set(planted.values())
+    for a in alns:
+        lo, hi = a[0] + 1, a[1]
+        ov = [g for g in genes if g[1] <= a[1] and g[2] >= a[0] + 1 and g[0] not in planted]
+        blocks = []
+        if ov and rng.random() < 0.85:
+            g = rng.choice(ov)
+            feats = rng.choice(isoforms[g[0]])["feats"]
+            for (x, y) in feats:
+                jx = rng.choice([0, 0, 1, -1, d, -d, d + 1, -d - 1]) if rng.random() < 0.5 else 0
+                jy = rng.choice([0, 0, 1, -1, d, -d, d + 1, -d - 1]) if rng.random() < 0.5 else 0
+                x2, y2 = max(lo, x + jx), min(hi, y + jy)
+                if y2 - x2 >= (gap - 2 * 6 - 2 if not micro else 0) and (not blocks or x2 - blocks[-1][1] > (d + 2 if not micro else 1)):
+                    blocks.append([x2, y2])
+            if blocks and rng.random() < 0.2 and len(blocks) > 2:
+                del blocks[rng.randint(1, len(blocks) - 2)]
+        if not blocks:
+            blocks = [[lo, hi]]
+        # an alignment starts with its first block and ends with its last one
+        if lo <= blocks[0][1] - (0 if micro else 8):
+            blocks[0][0] = lo
+        if hi >= blocks[-1][0] + (0 if micro else 8):
+            blocks[-1][1] = hi
+        if a[4] in last_block_reads and hi - lo > 3 * d + 120:
+            # a last block of d + 1 bases ending at the last aligned base
+            blocks = [b for b in blocks if b[1] <= hi - 3 * d - 60] or [[lo, hi - 3 * d - 60]]
+            blocks.append([hi - d, hi])
+        pa = pt = -1
+        if a[4] in last_block_reads:
+            pass
+        elif rng.random() < 0.12:
+            pa = blocks[-1][1] - rng.randint(0, 50)
+        elif rng.random() < 0.12:
+            pt = blocks[0][0] + rng.randint(0, 50)
+        reads[a[4]] = {"blocks": blocks, "polya": pa, "polyt": pt, "group": "NA"}
+    return {"alns": alns, "genes": genes, "hits": base["hits"], "chr": "chrF", "d": d, "abs_d": abs_d,
+            "no_secondary": base["no_secondary"], "min_mapq": base["min_mapq"],
+            "isoforms": [[g, isoforms[g]] for g in sorted(isoforms)], "reads": [[r, reads[r]] for r in sorted(reads)]}
